@@ -3,7 +3,6 @@ package bsonkit
 import (
 	"fmt"
 	"math"
-	"strconv"
 
 	"go.mongodb.org/mongo-driver/bson"
 )
@@ -210,8 +209,8 @@ func put(v interface{}, path string, value interface{}, prepend bool, set func(i
 
 	// put array field
 	if arr, ok := v.(bson.A); ok {
-		index, err := strconv.Atoi(key)
-		if err != nil || index < 0 || index == math.MaxInt {
+		index, ok := ParseIndex(key)
+		if !ok || index == math.MaxInt {
 			return Missing, false
 		}
 
